@@ -167,6 +167,33 @@ def vtp_bytes(ds, cfg: Cfg) -> bytes:
     return w.finish(s)
 
 
+def vtp_single_bytes(ds, cfg: Cfg, kind: str = "Lines") -> bytes:
+    """poly data made up of poly-lines only (`kind="Lines"`) or vertices only (`kind="Verts"`).  As VTK does, the
+    (empty) connectivity / offsets arrays of the unused sections are written as well, in the order Verts, Lines,
+    Strips, Polys - so the blocks of arrays that no reader ever looks at come LAST in an appended-data section."""
+    assert kind in ("Lines", "Verts")
+    w = Writer(cfg)
+    pts = ds["points"]
+    rows = {"Lines": [[0, 1], [1, 2], [2, 5]], "Verts": [[0], [3], [7]]}[kind]
+    empty = np.array([], dtype=np.int64)
+
+    def sect(tag):
+        r = rows if tag == kind else []
+        conn = np.array([i for row in r for i in row], dtype=np.int64) if r else empty
+        offs = np.cumsum([len(row) for row in r]).astype(np.int64) if r else empty
+        return (f"      <{tag}>\n" + w.array("connectivity", conn) + w.array("offsets", offs) + f"      </{tag}>\n")
+    cid = np.array([7 + 11 * i for i in range(len(rows))], dtype=np.int32)
+    s = w.root_open("PolyData") + "  <PolyData>\n"
+    s += (f'    <Piece NumberOfPoints="{len(pts)}" NumberOfVerts="{len(rows) if kind == "Verts" else 0}" '
+          f'NumberOfLines="{len(rows) if kind == "Lines" else 0}" NumberOfStrips="0" NumberOfPolys="0">\n')
+    s += "      <PointData>\n" + w.array("pscal", ds["pf"]["pscal"]) + "      </PointData>\n"
+    s += "      <CellData>\n" + w.array("cid", cid) + "      </CellData>\n"
+    s += "      <Points>\n" + w.array("Coordinates", pts, 3) + "      </Points>\n"
+    s += sect("Verts") + sect("Lines") + sect("Strips") + sect("Polys")
+    s += "    </Piece>\n  </PolyData>\n"
+    return w.finish(s)
+
+
 def _grid_fields(w, rng_vals, npts, ncells):
     pf = np.array([rng_vals[0] + 0.5 * i for i in range(npts)], dtype=np.float64)
     cf = np.array([[rng_vals[1] + i, -i - 1.5] for i in range(ncells)], dtype=np.float32)
@@ -375,8 +402,33 @@ def classify_cut(kind: str, full: bytes, part: bytes) -> str:
 
 # ------------------------------------------------------------------ faults
 
+def appended_block_offsets(content: bytes) -> set[int]:
+    """byte offsets of the boundaries of the array blocks inside an <AppendedData> section: begin of every block,
+    end of its length header (UInt32 / UInt64; for base64 the 8 / 12 / 16 characters a header can take) and one
+    byte to either side.  Cuts right behind a length header are the ones a reader that tolerates a missing tail
+    would take for an empty array."""
+    app = content.find(b"<AppendedData")
+    if app < 0:
+        return set()
+    gt = content.find(b">", app)
+    us = content.find(b"_", gt + 1) if gt >= 0 else -1
+    if us < 0:
+        return set()
+    start = us + 1
+    m = re.search(rb'header_type="(UInt32|UInt64)"', content[:app])
+    hb = 8 if (m and m.group(1) == b"UInt64") else 4
+    out = set()
+    for m in re.finditer(rb'offset="\s*(\d+)\s*"', content[:app]):
+        o = start + int(m.group(1))
+        for d in (0, hb, 3 * hb, 8, 12, 16, 24, 32):
+            for e in (-1, 0, 1):
+                if 0 <= o + d + e <= len(content):
+                    out.add(o + d + e)
+    return out
+
+
 def structural_offsets(content: bytes) -> set[int]:
-    out = {0, len(content)}
+    out = {0, len(content)} | appended_block_offsets(content)
     for m in re.finditer(rb"[<>_\n,]", content):
         out.add(m.start())
         out.add(m.start() + 1)
@@ -411,9 +463,26 @@ def array_removals(content: bytes):
     xml_end = xml_end if xml_end >= 0 else len(content)
     out = []
     for m in _ARRAY_ELEM.finditer(content, 0, xml_end):
+        if in_unused_section(content, m.start()):
+            continue
         nm = re.search(rb'Name="([^"]*)"', m.group(0))
         out.append(((nm.group(1).decode() if nm else "?") + f"@{m.start()}", content[:m.start()] + content[m.end():]))
     return out
+
+
+def in_unused_section(content: bytes, pos: int) -> bool:
+    """is `pos` inside a <Verts> / <Lines> / <Strips> / <Polys> section of poly data whose piece declares zero such
+    cells?  VTK writes the (empty) connectivity / offsets arrays of unused sections; they hold no data and no reader
+    looks at them, so removing one of them is not a data-losing fault."""
+    best = None
+    for tag in (b"Verts", b"Lines", b"Strips", b"Polys"):
+        o = content.rfind(b"<" + tag + b">", 0, pos)
+        if o >= 0 and content.find(b"</" + tag + b">", o, pos) < 0 and (best is None or o > best[0]):
+            best = (o, tag)
+    if best is None:
+        return False
+    m = re.search(rb'NumberOf' + best[1] + rb'="\s*(\d+)\s*"', content[:pos])
+    return m is not None and int(m.group(1)) == 0
 
 
 def line_removals(content: bytes, pattern: bytes):
@@ -457,3 +526,80 @@ def array_shortenings(content: bytes):
         out.append(((nm.group(1).decode() if nm else "?") + f"@{m.start()}",
                     content[:m.start(3)] + short + content[m.end(3):]))
     return out
+
+
+# ------------------------------------------------------------------ XmlLite: the document protocol of the driver
+
+_XL_TAG = re.compile(rb"<(/?)([A-Za-z_][A-Za-z0-9_.:-]*)((?: [A-Za-z_][A-Za-z0-9_.:-]*=\"[^\"<&]*\")*)(/?)>")
+_XL_ATTR = re.compile(rb" ([A-Za-z_][A-Za-z0-9_.:-]*)=\"([^\"<&]*)\"")
+
+
+def _hx(b: bytes) -> str:
+    return b.hex() or "-"
+
+
+def _xl_attrs(raw: bytes) -> str:
+    kv = _XL_ATTR.findall(raw)
+    return " ".join([str(len(kv))] + [f"{_hx(k)} {_hx(v)}" for k, v in kv])
+
+
+def xmllite_doc_line(content: bytes):
+    """`c18ser …` line describing `content` as an XmlLite document (declaration, blanks, ONE root element with
+    start / end / empty-element tags, double-quoted attributes ` k="v"`, text), or None if `content` is not of that
+    restricted shape.  The driver serializes the document again; only if that reproduces `content` byte by byte
+    the prefix theorem speaks about this file."""
+    i, decl = 0, "none"
+    if content.startswith(b"<?"):
+        e = content.find(b"?>")
+        if e < 0 or b"?" in content[2:e]:
+            return None
+        decl, i = _hx(content[2:e]), e + 2
+    j = i
+    while j < len(content) and content[j] in b" \n\t\r":
+        j += 1
+    ws1 = content[i:j]
+    m = _XL_TAG.match(content, j)
+    if m is None or m.group(1):
+        return None
+    name, attrs = m.group(2), _xl_attrs(m.group(3))
+    pos = m.end()
+    if m.group(4):
+        body = "0"
+    else:
+        toks, depth = [], 1
+        while depth > 0:
+            lt = content.find(b"<", pos)
+            if lt < 0:
+                return None
+            text = content[pos:lt]
+            if b"&" in text:
+                return None
+            if text:
+                toks.append(f"T {_hx(text)}")
+            m = _XL_TAG.match(content, lt)
+            if m is None:
+                return None
+            if m.group(1):
+                if m.group(3) or m.group(4):
+                    return None
+                depth -= 1
+                if depth > 0:
+                    toks.append("C")
+                elif m.group(2) != name:
+                    return None
+            elif m.group(4):
+                toks.append(f"E {_hx(m.group(2))} {_xl_attrs(m.group(3))}")
+            else:
+                toks.append(f"O {_hx(m.group(2))} {_xl_attrs(m.group(3))}")
+                depth += 1
+            pos = m.end()
+        body = " ".join(["1", str(len(toks))] + toks)
+    ws2 = content[pos:]
+    if ws2.strip(b" \n\t\r"):
+        return None
+    return f"c18ser {decl} {_hx(ws1)} {_hx(name)} {attrs} {body} {_hx(ws2)}"
+
+
+def ascii_clean(data: bytes) -> bool:
+    """printable ASCII and blanks only (the alphabet on which expat and XmlLite are compared)"""
+    return all(b in (9, 10, 13) or 32 <= b < 127 for b in data)
